@@ -8,6 +8,8 @@
 (*   owner     a claimed shard is owned only by the instance with the       *)
 (*             newest claim, and by it unless it released it or has left    *)
 (*   leftowns  no live instance still lists an instance that left           *)
+(*   realclaim real memberlist instances and the real announcement path: the *)
+(*             older of two claims of one shard was not given up             *)
 (*   realleave a real memberlist leave: Leave returns, the others forget the *)
 (*             instance and stay operational                                *)
 (*   mergeview after a state push of i was merged at j, j's view of i is    *)
@@ -82,12 +84,17 @@ OnRoute(e) ==
 OnRealLeave(e) ==
   /\ (IF e.joined /\ e.left /\ e.forgotten /\ e.responsive /\ e.rejoin THEN TRUE ELSE FlagAll({<<l, "realleave", e.id, 0>>}))
   /\ UNCHANGED <<seqno, claim, held, left, broken, snapv>>
+\* real memberlist instances, the real announcement path: a claims a shard, b claims it later: only the newest claim owns it
+OnRealClaim(e) ==
+  /\ (IF e.joined /\ e.claimed /\ e.owners = <<"b">> THEN TRUE ELSE FlagAll({<<l, "realclaim", e.id, 0>>}))
+  /\ UNCHANGED <<seqno, claim, held, left, broken, snapv>>
 Next == /\ l <= Len(Trace) /\ l' = l + 1
         /\ LET e == Trace[l] IN
            CASE e.ev = "Config" -> seqno' = 0 /\ claim' = <<>> /\ held' = <<>> /\ left' = {} /\ broken' = FALSE /\ snapv' = <<>>
              [] e.ev = "Step" -> OnStep(e)
              [] e.ev = "Quiet" -> OnQuiet(e)
              [] e.ev = "Route" -> OnRoute(e)
+             [] e.ev = "RealClaim" -> OnRealClaim(e)
              [] e.ev = "RealLeave" -> OnRealLeave(e)
              [] OTHER -> UNCHANGED <<seqno, claim, held, left, broken, snapv>>
 Spec == Init /\ [][Next]_vars
